@@ -174,11 +174,50 @@ type holder struct {
 // field name or JSON tag, dotted or bracketed (docs/expressions.md, docs/api.md); hyphenated
 // keys work directly in templates (docs/components.md).
 type form struct {
-	name string
-	path string
-	wrap [2]string // optional wrapper around the probing element (a v-for binding the path's head)
-	data func(val any, missing bool) map[string]any
-	skip func(v vals.V) bool
+	name   string
+	path   string
+	wrap   [2]string // optional wrapper around the probing element (a v-for binding the path's head)
+	data   func(val any, missing bool) map[string]any
+	skip   func(v vals.V) bool
+	neg    string // negated spelling (default "!" + path)
+	noAttr bool   // the form is not written into a bound attribute
+}
+
+// funcNames are names of template functions registered by default (docs/funcmap.md): a variable
+// of such a name is a variable like any other.
+var funcNames = []string{"title", "len", "default", "type", "json", "file"}
+
+func funcNameForms() []form {
+	var out []form
+	for _, name := range funcNames {
+		name := name
+		out = append(out, form{name: "variable named like the template function " + name, path: name,
+			// without any variable of that name the word denotes the function: not a variable at all
+			skip: func(v vals.V) bool { return v.K == "missing" },
+			data: func(v any, _ bool) map[string]any { return map[string]any{name: v} }})
+	}
+	return out
+}
+
+// cmpForms write a boolean as a comparison in its JS and Go spellings (docs/expressions.md,
+// docs/syntax.md `status == 'active'`; === / !== are accepted as == / !=): s is "yes" for true and
+// "no" for false.
+func cmpForms() []form {
+	var out []form
+	for _, op := range []struct{ name, expr string }{
+		{"s === 'yes'", "s === 'yes'"}, {"s !== 'no'", "s !== 'no'"}, {"s == 'yes'", "s == 'yes'"}, {"s != 'no'", "s != 'no'"},
+		{"'yes' === s", "'yes' === s"}, {"n !== 0", "n !== 0"}, {"n === 1", "n === 1"},
+	} {
+		out = append(out, form{name: "comparison " + op.name, path: op.expr, neg: "!(" + op.expr + ")", noAttr: true,
+			skip: func(v vals.V) bool { return v.K != "bool" },
+			data: func(v any, _ bool) map[string]any {
+				if v == true {
+					return map[string]any{"s": "yes", "n": 1}
+				}
+				return map[string]any{"s": "no", "n": 0}
+			}})
+	}
+	return out
 }
 
 func mapWith(key string, val any, missing bool) map[string]any {
@@ -249,7 +288,7 @@ var forms = []form{
 // formPositions writes every form into the truthiness positions.
 func formPositions() []position {
 	var out []position
-	for _, f := range forms {
+	for _, f := range allForms() {
 		f := f
 		data := func(v vals.V) map[string]any {
 			var val any
@@ -268,18 +307,36 @@ func formPositions() []position {
 		}
 		w := func(s string) string { return f.wrap[0] + s + f.wrap[1] }
 		p := f.path
+		np := f.neg
+		if np == "" {
+			np = "!" + p
+		}
+		if !f.noAttr {
+			out = append(out, position{name: f.name + " / :attr", tpl: w(`<p data-m="y" :data-x="` + p + `">Y</p>`), obs: hasAttr("y", "data-x"), data: data, skip: f.skip})
+		}
 		out = append(out,
 			position{name: f.name + " / v-if", tpl: w(`<p data-m="y" v-if="` + p + `">Y</p>`), obs: present("y"), data: data, skip: f.skip},
 			position{name: f.name + " / v-else-if", tpl: w(`<p data-m="n" v-if="ff">N</p><p data-m="y" v-else-if="` + p + `">Y</p><p data-m="e" v-else>E</p>`), obs: elseIf, data: data, skip: f.skip},
 			position{name: f.name + " / v-show", tpl: w(`<p data-m="y" v-show="` + p + `">Y</p>`), obs: shown("y"), data: data, skip: f.skip},
-			position{name: f.name + " / :attr", tpl: w(`<p data-m="y" :data-x="` + p + `">Y</p>`), obs: hasAttr("y", "data-x"), data: data, skip: f.skip},
 			position{name: f.name + " / :class", tpl: w(`<p data-m="y" :class="{k: ` + p + `}">Y</p>`), obs: hasClass("y", "k", nil, nil), data: data, skip: f.skip},
-			position{name: f.name + " / v-if !", tpl: w(`<p data-m="y" v-if="!` + p + `">Y</p>`), obs: not(present("y")), data: data, skip: f.skip},
-			position{name: f.name + " / v-show !", tpl: w(`<p data-m="y" v-show="!` + p + `">Y</p>`), obs: not(shown("y")), data: data, skip: f.skip},
+			position{name: f.name + " / v-if !", tpl: w(`<p data-m="y" v-if="` + np + `">Y</p>`), obs: not(present("y")), data: data, skip: f.skip},
+			position{name: f.name + " / v-show !", tpl: w(`<p data-m="y" v-show="` + np + `">Y</p>`), obs: not(shown("y")), data: data, skip: f.skip},
 		)
 	}
 	return out
 }
+
+func allForms() []form {
+	out := append([]form(nil), forms...)
+	out = append(out, funcNameForms()...)
+	return append(out, cmpForms()...)
+}
+
+// extraValues complete the shared table with spellings around the one string the implementation
+// treats specially ("false"): the documentation lists only the empty string as a falsy string, so
+// every other spelling is truthy.
+var extraValues = []vals.V{vals.Str("False"), vals.Str("FALSE"), vals.Str("fAlSe"), vals.Str("True"), vals.Str("TRUE"),
+	vals.Str(" false"), vals.Str("false "), vals.Str("falsey"), vals.Str("nil"), vals.Str("null"), vals.Str("undefined"), vals.Str("no")}
 
 func positionNames() []string {
 	out := make([]string, len(positions))
@@ -322,6 +379,13 @@ func excludedPositions(v vals.V, open map[string]bool) map[string]string {
 	}
 	if open[fShowChain] {
 		out[pShowChain] = fShowChain
+	}
+	if open[fClassSne] && v.K == "bool" {
+		for _, p := range positionNames() {
+			if strings.Contains(p, "!==") && strings.HasSuffix(p, "/ :class") {
+				out[p] = fClassSne
+			}
+		}
 	}
 	return out
 }
